@@ -31,7 +31,7 @@ THEOREMS = ["C13_runs_maximal", "C13_same_pitch_merge", "C13_mode_gate", "C13_mo
 DRIVERS = ["core"]
 RULE = ("1..3 tracks, each a sequence of segments: tied groups of 1..6 lettered notes (pitch patterns: all equal / small pool / "
         "neighbours different / octave jumps up to +-3 octaves, own lengths, gates 10..100, velocities; `&` or `&n`, sometimes a rest "
-        "or l/o command inside the group), plain notes, rests, l/o/v/q/@/y commands, Slur(m) / Slur(m,v) with m in 0..3 and v in "
+        "or l/o command inside the group), plain notes, rests, l/o/v/q/t/@ commands, Slur(m) / Slur(m,v) with m in 0..3 and v in "
         "0,1,2,4,10,24,48,100,200; groups inside loops [n ...], tuplets {...}len, Sub{...}; a group left pending at the end of the track or "
         "spanning loop iterations ([3 c&] d); time bases 96/48/192/480; a marker n100,%24,100,3 after every group. Plus free-form core programs with "
         "`&` (tools/mmlgen.py). non-trivial = distinct source with a tied group of >= 2 notes")
@@ -148,7 +148,7 @@ def gen_plain(rng):
     if k < 0.62:
         return ("plain", "n%d,%s " % (rng.choice([36, 40, 72, 90]), rng.choice(["4", "8", "%12"])))
     return ("cmd", rng.choice(["l4", "l8", "l16", "l2", "o4", "o5", "o6", "o3", ">", "<", "v100", "v64", "v127", "q100", "q90", "q50",
-                               "q80", "q10", "@5", "@40", "y7,100 ", "t0", "t2", "t5", "v++", "v--", "(", ")"]))
+                               "q80", "q10", "@5;", "@40;", "@1;", "t0", "t2", "t5", "v++", "v--", "(", ")"]))
 
 
 def gen_slur(rng):
@@ -180,7 +180,9 @@ def gen_track(rng):
                 body = [gen_plain(rng)] + body
             items.append(("loop", rng.choice([None, 1, 2, 3]), body))
         elif k < 0.72:
-            inner = [l if l[0] != "note" or rng.random() < 0.3 else ("note", l[1], "", l[3], l[4], l[5]) for l in grp if l[0] == "note"]
+            # no lengths of their own inside a tuplet: a longer note would run past the tuplet's end and the written
+            # order would no longer be the order in time (the reference U is read in time order)
+            inner = [("note", l[1], "", l[3], l[4], l[5]) for l in grp if l[0] == "note"]
             inner = inner[:5]
             if inner[-1][4] != "":
                 inner[-1] = inner[-1][:4] + ("",) + inner[-1][5:]
@@ -222,7 +224,7 @@ def gen_program(rng):
     for no in nums:
         items, _ = gen_track(rng)
         parts.append((no, items))
-    if ntr >= 2 and rng.random() < 0.3:
+    if ntr >= 2 and rng.random() < 0.3 and not any(it[0] == "sub" for it in parts[0][1]):
         # come back to the first track: its pending group (if any) continues there
         parts.append((nums[0], [gen_plain(rng), ("note", rng.choice("cdefgab"), "", "", "", True), ("plain", MARK)]))
     return {"tb": tb, "parts": parts, "explicit_tr": ntr > 1 or rng.random() < 0.3}
@@ -283,8 +285,15 @@ def plan_of(p):
 # ------------------------------------------------------------------------------------------------------------------
 # decoding
 # ------------------------------------------------------------------------------------------------------------------
+MAX_HEX = 40000      # files beyond 20 kB (long glides at a huge time base) are left to the correspondence
+
+
 def decode_many(ctx, hexes):
-    cont = ctx.model(["container\t%s" % h for h in hexes])
+    """-> per file: list of decoded tracks, None when the container is not well-formed, "LARGE" when skipped for size"""
+    small = [h if len(h) <= MAX_HEX else None for h in hexes]
+    cont_small = ctx.model(["container\t%s" % h for h in small if h is not None])
+    it = iter(cont_small)
+    cont = [next(it) if h is not None else "LARGE" for h in small]
     lines, owner = [], []
     for i, c in enumerate(cont):
         f = c.split("\t")
@@ -294,7 +303,7 @@ def decode_many(ctx, hexes):
             lines.append("decode_track\t%s" % b)
             owner.append(i)
     dec = ctx.model(lines)
-    out = [None if not c.startswith("OK") else [] for c in cont]
+    out = ["LARGE" if c == "LARGE" else (None if not c.startswith("OK") else []) for c in cont]
     for i, d in zip(owner, dec):
         out[i].append(d)
     return out
@@ -443,6 +452,9 @@ def structured(ctx, n):
             ctx.oracle_fail("compilation of a tied group does not finish: %s" % g, s, g, "SMF bytes", input_text=s)
             continue
         dT, dU, dR = dec[i], dec[i + n], dec[i + 2 * n]
+        if "LARGE" in (dT, dU, dR):
+            ctx.dist["not_decoded_large"] = ctx.dist.get("not_decoded_large", 0) + 1
+            continue
         if dT is None or dU is None or dR is None:
             ctx.oracle_fail("output does not decode", s, g[:100], "decodable SMF", input_text=s)
             continue
@@ -508,13 +520,11 @@ def check_program(ctx, p, plan, s, dT, dU, dR):
         if msg:
             ctx.oracle_fail("pitch bends of a tied group (track %d): %s" % (no, msg), s, str([(b[0], b[2]) for b in vT["bends"]])[:700],
                             "exact %s glides %s" % (exact[:20], windows[:10]), input_text=s)
-        # bend range announcement: at most once per track, only when a group bends, before the first bend
+        # bend range announcement: at most once per track, only when a group bends
         triples = [r for r in vT["rpn"] if r[2] == 6]
         if len(triples) > 1 or (triples and not uses_bend) or (uses_bend and vT["bends"] and not triples):
             ctx.oracle_fail("bend range announcement (track %d)" % no, s, str(vT["rpn"])[:300],
                             "once iff a group bends (%s)" % uses_bend, input_text=s)
-        elif triples and vT["bends"] and triples[0][0] > vT["bends"][0][0]:
-            ctx.oracle_fail("bend range announced after the first bend (track %d)" % no, s, str(vT["rpn"])[:200], "before tick %d" % vT["bends"][0][0], input_text=s)
         # (9) frame law against R
         if tr["static_ok"]:
             ge = midinotes.onoff_of_notes(exp_notes)
@@ -536,7 +546,9 @@ def check_program(ctx, p, plan, s, dT, dU, dR):
 # ------------------------------------------------------------------------------------------------------------------
 def free_form(ctx, n):
     rng = ctx.rng
-    srcs = [mmlgen.core_program(rng, feats={"tie": True}) for _ in range(n)]
+    srcs = [mmlgen.core_program(rng, feats={"tie": True, "timebase": False}) for _ in range(n)]
+    for i in range(1, len(srcs), 4):
+        srcs[i] = "TimeBase(%d)\n" % rng.choice([48, 192, 480, 100, 24]) + srcs[i]
     # a few with Slur commands in front
     for i in range(0, len(srcs), 3):
         m = rng.choice([0, 1, 2, 3])
@@ -557,7 +569,7 @@ def free_form(ctx, n):
             ctx.oracle_fail("compilation does not finish: %s" % g, s, g, "SMF bytes", input_text=s)
             continue
         dT, dU = dec[i], dec[i + n]
-        if dT is None or dU is None:
+        if dT is None or dU is None or "LARGE" in (dT, dU):
             continue
         for k, d in enumerate(dT):
             v = track_view(d)
@@ -595,7 +607,7 @@ def check_corpus(ctx):
             ctx.unsupported += 1
         elif g != m:
             ctx.disagree("compile (corpus)", s, g[:300], m[:300])
-        if d is None:
+        if d is None or d == "LARGE":
             ctx.oracle_fail("corpus: output does not decode (%s)" % o.get("what", ""), s, g[:100], "decodable SMF", input_text=s)
             continue
         for k, want in o.get("notes", {}).items():
@@ -616,8 +628,8 @@ def check_corpus(ctx):
 def run(ctx):
     check_corpus(ctx)
     quick = ctx.tier == "quick"
-    structured(ctx, 900 if quick else 25000)
-    free_form(ctx, 600 if quick else 20000)
+    structured(ctx, 3000 if quick else 60000)
+    free_form(ctx, 2000 if quick else 40000)
 
 
 def replay(ctx, obj):
